@@ -8,20 +8,21 @@ import (
 
 // C03Shape is handed over by the generated code for one struct type T.
 type C03Shape struct {
-	ID     int
-	Size   uintptr // unsafe.Sizeof(T{})
-	Align  uintptr
-	Wit    []Wit                                // compiler's view of the listing entries, in TLC's listing order
-	List   func() []Entry                       // hseq.New[T]()
-	Name   func(string) Entry                   // hseq.ForName(hseq.New[T](), k)
-	Maybe  func(string) (Entry, bool)           // hseq.ForNameMaybe
-	Type   map[string]func() Entry              // model type -> hseq.ForType[A, T]
-	Sel    func(...string) []Entry              // hseq.New[T](names...)
-	SelT   map[string]func() []Entry            // "A|B|C" -> hseq.New3[T, A, B, C]()
-	Subs   map[string]func() []Entry            // struct type of the shape -> hseq.New[E]() (the type unfolded on its own)
-	Outer2 func() []Entry                       // hseq.New[T1]() for T1 struct{ Pad0 int64; <first embedded struct of T> }
-	FMap   func() []Probe                       // hseq.FMap(hseq.New[T](), probe)
-	FMapN  map[int]func(names []string) []Probe // N -> hseq.FMapN(hseq.New[T](names...), probe 0, ..., probe N-1)
+	ID       int
+	Size     uintptr // unsafe.Sizeof(T{})
+	Align    uintptr
+	Wit      []Wit                                // compiler's view of the listing entries, in TLC's listing order
+	List     func() []Entry                       // hseq.New[T]()
+	Name     func(string) Entry                   // hseq.ForName(hseq.New[T](), k)
+	Maybe    func(string) (Entry, bool)           // hseq.ForNameMaybe
+	Type     map[string]func() Entry              // model type -> hseq.ForType[A, T]
+	Sel      func(...string) []Entry              // hseq.New[T](names...)
+	SelT     map[string]func() []Entry            // "A|B|C" -> hseq.New3[T, A, B, C]()
+	Scribble func()                               // reverses and partly clears, in place, the listing a call of hseq.New[T]() returned
+	Subs     map[string]func() []Entry            // struct type of the shape -> hseq.New[E]() (the type unfolded on its own)
+	Outer2   func() []Entry                       // hseq.New[T1]() for T1 struct{ Pad0 int64; <first embedded struct of T> }
+	FMap     func() []Probe                       // hseq.FMap(hseq.New[T](), probe)
+	FMapN    map[int]func(names []string) []Probe // N -> hseq.FMapN(hseq.New[T](names...), probe 0, ..., probe N-1)
 }
 
 type c03Listing struct {
@@ -301,6 +302,9 @@ func runC03(r *reporter, s *C03Shape, c *c03Case) {
 			plain("New[struct{ Pad0 int64; <the first embedded struct of the shape> }] (a second struct embedding it, at another offset)", es, c.Outer2.Listing)
 		}
 	}
+	if s.Scribble != nil {
+		try(s.Scribble) // the caller does what it likes with the slice it was given: the next listing is a new one
+	}
 	if p, msg := try(func() { list = s.List() }); p {
 		r.pviol("listing-panic", s.ID, rec{"api": "New (once more)", "detail": msg})
 	} else if len(list) != len(c.Listing) {
@@ -308,7 +312,7 @@ func runC03(r *reporter, s *C03Shape, c *c03Case) {
 	} else {
 		for j := range list {
 			if k, d := c.same(s, list[j], j+1); k != "" {
-				r.pviol("listing-"+k, s.ID, rec{"api": "New (once more, after its struct types were unfolded on their own)", "pos": j, "detail": d})
+				r.pviol("listing-"+k, s.ID, rec{"api": "New (once more, after its struct types were unfolded on their own and a caller reversed and cleared, in place, the listing it had been given)", "pos": j, "detail": d})
 			}
 		}
 	}
